@@ -1531,6 +1531,24 @@ func (vc *VC) exit(st *State, results []Term, guard string, pos token.Pos) {
 		pos = vc.fn.Pos()
 	}
 	env := vc.selfEnv(st, results)
+	// ghost assignments of the contract are executed at the return
+	for _, c := range vc.spec.clauses("ghostset") {
+		t, err := env.translate(c.Expr)
+		if err != nil {
+			panic(execErr(vc.clauseErr(c, err).Error()))
+		}
+		t = env.value(t)
+		targets := vc.exprTargets(env, c.LHS, c.Name)
+		if len(targets) != 1 {
+			panic(execErr("ghost assignment target must be one ghost location: " + c.Name))
+		}
+		tg := targets[0]
+		if tg.idx == "" {
+			vc.set(st, tg.name, tg.sort, t.S)
+		} else {
+			vc.setAt(st, tg.name, tg.sort, tg.idx, t.S)
+		}
+	}
 	if vc.hasPanicsIff {
 		for _, c := range vc.spec.clauses("panics_iff") {
 			vc.oblige("panics-iff.returns", c.label(), c.Props, guard, not(vc.panicsIff), "a normal return happens only when the panic condition is false: "+c.Text, pos)
